@@ -361,7 +361,8 @@ def _loop_cover(a, n, good, rets):
     """Every path that starts on a Some edge of next() `n` reaches a block in `good` before it reaches n.bb again or a return."""
     # the edges of the switch on next()'s result: the sibling edge carries the None fact
     none_src = {x for (x, s2), fs in a.edge_facts.items() if any(("variant", n.ret, 0) in f for f in fs)}
-    some_starts = [s2 for (x, s2), fs in a.edge_facts.items() if x in none_src and any(("variant", n.ret, 1) in f for f in fs)]
+    some_src = {x for (x, s2), fs in a.edge_facts.items() if any(("variant", n.ret, 1) in f for f in fs)}
+    some_starts = [s2 for (x, s2), fs in a.edge_facts.items() if x in (none_src & some_src) and any(("variant", n.ret, 1) in f for f in fs)]
     if not some_starts:
         return False, "no Some edge found after next()"
     work, seen = list(some_starts), set()
